@@ -253,6 +253,28 @@ func multiNIC(lo, hi int) {
 			plen := []int{0, 1, 2, 3, 7, 8, 9, 511, 512, 1471, 1472, (k*24 + i) % 1473}[r.Intn(12)]
 			payload := r.Bytes(plen)
 			dport := uint16(1 + r.Intn(65535))
+			// every sixth datagram is crafted so that its computed checksum is 0x0000, which
+			// must go out as 0xffff (RFC 768; zero means "no checksum", illegal over IPv6)
+			if w := choose(dst); plen >= 2 && w >= 0 && r.Chance(1, 6) {
+				payload[0], payload[1] = 0, 0
+				var sum uint16
+				if v6 {
+					var s6, d6 [16]byte
+					copy(s6[:], nics[w].v6)
+					copy(d6[:], dst)
+					b := rfc.UDP{SrcPort: 5001, DstPort: dport, Len: uint16(8 + plen), Payload: payload}.Bytes6(s6, d6, false)
+					sum = ^rfc.UDP{SrcPort: 5001, DstPort: dport, Payload: payload}.CsumOf6(b, s6, d6)
+				} else {
+					var s4, d4 [4]byte
+					copy(s4[:], nics[w].v4)
+					copy(d4[:], dst)
+					b := rfc.UDP{SrcPort: 5000, DstPort: dport, Len: uint16(8 + plen), Payload: payload}.Bytes4(s4, d4, false)
+					sum = ^rfc.UDP{}.CsumOf4(b, s4, d4)
+				}
+				// sum = one's-complement sum with a zero checksum field and two zero payload bytes
+				payload[0], payload[1] = byte(^sum>>8), byte(^sum)
+				run.Count("udp_datagrams_crafted_for_checksum_zero", 1)
+			}
 			mu.Lock()
 			out = out[:0]
 			mu.Unlock()
